@@ -114,9 +114,6 @@ fn main() {
     let o = new { n: 4 };
     loop { spawn worker(l, o); time.sleep(0.001); }
 }`},
-	{name: "spawn-relay-endless", endless: true, vmOnly: true, fixedN: 1, check: nil, src: `
-fn step(n: int) { spawn step(n + 1); }
-fn main() { step(0); }`},
 	{name: "huge-range-left-by-break", endless: true, check: noOutput, src: `
 fn main() {
     for i in 0..4000000000000 { if i == 5 { break; } }
